@@ -83,6 +83,31 @@ def pathJoin (a b : Str) : Str :=
   else if a.isEmpty || a.getLast? == some 47 then a ++ b
   else a ++ [47] ++ b
 
+/-- the components of a path, split at '/' -/
+def splitSlash (s : Str) : List Str :=
+  let rec go (cur : Str) : Str → List Str
+    | [] => [cur.reverse]
+    | c :: cs => if c == 47 then cur.reverse :: go [] cs else go (c :: cur) cs
+  go [] s
+
+/-- `os.path.normpath`, as a list of components: empty and "." components dropped, "x/.." pairs
+    resolved lexically; a ".." that has nothing to cancel is kept on a relative path, dropped at the root -/
+def normComponents (s : Str) : List Str :=
+  let isAbs := s.head? == some 47
+  (splitSlash s).foldl (fun acc c =>
+    if c.isEmpty || c == [46] then acc
+    else if c == [46, 46] then
+      match acc.getLast? with
+      | some l => if l == [46, 46] then acc ++ [c] else acc.dropLast
+      | none => if isAbs then acc else acc ++ [c]
+    else acc ++ [c]) []
+
+/-- `os.path.abspath(a) == os.path.abspath(b)` for two paths of the same kind (both relative to the
+    same working directory, or both absolute); a relative and an absolute spelling of the same place
+    are not recognised as the same (that would need the working directory) -/
+def samePath (a b : Str) : Bool :=
+  ((a.head? == some 47) == (b.head? == some 47)) && normComponents a == normComponents b
+
 /-- strip from the right every element satisfying `p`. -/
 def rstripBy (p : Nat → Bool) (s : Str) : Str := (s.reverse.dropWhile p).reverse
 
